@@ -24,7 +24,7 @@ func init() {
 
 	addControl(control{Prop: "C16", Name: "field-option-memoises-its-tree", Rule: "R16e", Kind: "mutant", Quick: true,
 		File: "opts.go", Old: "		return func(o *options) {\n			if o.fieldHandlingTree == nil {\n				o.fieldHandlingTree = newFieldHandlingTree()\n			}\n			o.fieldHandlingTree.merge(table, PathSep(o.pathSep))\n		}",
-		New: "		var rendered *fieldHandlingTree\n		return func(o *options) {\n			if rendered == nil {\n				rendered = newFieldHandlingTree()\n				rendered.merge(table, PathSep(o.pathSep))\n			}\n			if o.fieldHandlingTree == nil {\n				o.fieldHandlingTree = rendered\n				return\n			}\n			o.fieldHandlingTree.merge(rendered)\n		}",
+		New:    "		var rendered *fieldHandlingTree\n		return func(o *options) {\n			if rendered == nil {\n				rendered = newFieldHandlingTree()\n				rendered.merge(table, PathSep(o.pathSep))\n			}\n			if o.fieldHandlingTree == nil {\n				o.fieldHandlingTree = rendered\n				return\n			}\n			o.fieldHandlingTree.merge(rendered)\n		}",
 		Expect: "R16e/ucfg.makeFieldOptValueHandling"})
 	addControl(control{Prop: "C16", Name: "field-option-local-renamed", Rule: "R16e", Kind: "refactor",
 		File: "opts.go", Old: "		return func(o *options) {\n			if o.fieldHandlingTree == nil {\n				o.fieldHandlingTree = newFieldHandlingTree()\n			}\n			o.fieldHandlingTree.merge(table, PathSep(o.pathSep))\n		}",
@@ -239,6 +239,8 @@ func init() {
 		New:    "		d, err = intSecondsToDuration(v.i, maxSeconds)\n	case *cfgUint:",
 		More:   []edit{{"reify.go", "func reifyDuration(", "func intSecondsToDuration(i, maxSeconds int64) (d time.Duration, err error) {\n	if maxSeconds < i {\n		err = ErrOverflow\n	} else {\n		d = time.Duration(i) * time.Second\n	}\n	return d, err\n}\n\nfunc reifyDuration("}},
 		Expect: "R03b/ucfg.reifyDuration"})
+	addControl(control{Prop: "C03", Name: "integer-seconds-through-float", Rule: "R03d", Kind: "mutant", Quick: true,
+		File: "reify.go", Old: "			d = time.Duration(v.i) * time.Second\n", New: "			d = time.Duration(float64(v.i) * float64(time.Second))\n", Expect: "R03d/ucfg.reifyDuration"})
 	addControl(control{Prop: "C03", Name: "duration-bound-off-by-unit", Rule: "R03b", Kind: "mutant",
 		File: "reify.go", Old: "const maxSeconds = int64(math.MaxInt64 / time.Second)", New: "const maxSeconds = int64(math.MaxInt64 / time.Millisecond)", Expect: "R03b/ucfg.reifyDuration"})
 	addControl(control{Prop: "C03", Name: "convert-before-check", Rule: "R03a", Kind: "mutant",
@@ -523,7 +525,7 @@ func init() {
 		File: "ucfg.go", Old: "	copy(a[i:], a[i+1:])\n	a[len(a)-1] = nil\n	f.a = a[:len(a)-1]\n\n	// the elements that moved down are known under their new index now\n	for j := i; j < len(f.a); j++ {\n		if v := f.a[j]; v != nil {\n			ctx := v.Context()\n			ctx.field = fmt.Sprintf(\"%d\", j)\n			v.SetContext(ctx)\n		}\n	}\n	return true", New: "	last := len(a) - 1\n	for j := i; j < last; j++ {\n		moved := a[j+1]\n		if moved != nil {\n			ctx := moved.Context()\n			ctx.field = fmt.Sprintf(\"%d\", j)\n			moved.SetContext(ctx)\n		}\n		a[j] = moved\n	}\n	a[last] = nil\n	f.a = a[:last]\n	return true"})
 	addControl(control{Prop: "C04", Name: "default-validated-before-initdefaults", Rule: "R04g", Kind: "mutant", Quick: true,
 		File: "reify.go", Old: "		v := tryInitDefaults(pointerize(t, baseType, reflect.Zero(baseType)))\n", New: "		v0 := pointerize(t, baseType, reflect.Zero(baseType))\n		v := tryInitDefaults(v0)\n",
-		More: []edit{{"reify.go", "		base := chaseValuePointers(v)\n		if err := runValidators(base.Interface(), opts.validators); err != nil {\n			return reflect.Value{}, raiseValidation(ctx, meta, \"\", err)", "		base := chaseValuePointers(v0)\n		if err := runValidators(base.Interface(), opts.validators); err != nil {\n			return reflect.Value{}, raiseValidation(ctx, meta, \"\", err)"}},
+		More:   []edit{{"reify.go", "		base := chaseValuePointers(v)\n		if err := runValidators(base.Interface(), opts.validators); err != nil {\n			return reflect.Value{}, raiseValidation(ctx, meta, \"\", err)", "		base := chaseValuePointers(v0)\n		if err := runValidators(base.Interface(), opts.validators); err != nil {\n			return reflect.Value{}, raiseValidation(ctx, meta, \"\", err)"}},
 		Expect: "R04g/ucfg.reifyPrimitive"})
 	addControl(control{Prop: "C18", Name: "intermediate-node-takes-own-meta", Rule: "R18g", Kind: "mutant", Quick: true,
 		File: "path.go", Old: "		next.metadata = val.meta()\n		v := cfgSub{next}\n", New: "		v := cfgSub{next}\n		next.metadata = v.meta()\n", Expect: "R18g/"})
@@ -607,4 +609,32 @@ func init() {
 		File: "merge.go", Old: "	if k != reflect.String && k != reflect.Interface {\n		return raiseKeyInvalidTypeMerge(cfg, from.Type())\n	}", New: "	switch k {\n	case reflect.String, reflect.Interface:\n	default:\n		return raiseKeyInvalidTypeMerge(cfg, from.Type())\n	}"})
 	addControl(control{Prop: "C05", Name: "key-kind-test-nested", Rule: "R05b", Kind: "refactor",
 		File: "merge.go", Old: "	if k != reflect.String && k != reflect.Interface {\n		return raiseKeyInvalidTypeMerge(cfg, from.Type())\n	}", New: "	if k != reflect.String {\n		if k != reflect.Interface {\n			return raiseKeyInvalidTypeMerge(cfg, from.Type())\n		}\n	}"})
+}
+
+func init() {
+	// ---------------- rules added with round 5 ----------------
+	addControl(control{Prop: "C07", Name: "map-validated-through-its-pointer", Rule: "R07m", Kind: "mutant", Quick: true,
+		File: "validator.go", Old: "		err = validateMap(chased, opts)\n", New: "		err = validateMap(val, opts)\n", Expect: "R07m/ucfg.validateMap"})
+	addControl(control{Prop: "C07", Name: "list-validated-through-its-pointer", Rule: "R07m", Kind: "mutant",
+		File: "validator.go", Old: "		err = validateArray(chased, opts)\n", New: "		err = validateArray(val, opts)\n", Expect: "R07m/ucfg.validateArray"})
+	addControl(control{Prop: "C07", Name: "nil-map-pointer-reified-in-place", Rule: "R07m", Kind: "mutant",
+		File: "reify.go", Old: "		if to.Kind() != reflect.Map {\n", New: "		if to.Kind() == reflect.Interface {\n", Expect: "R07m/ucfg.reifyMap"})
+	addControl(control{Prop: "C07", Name: "map-validation-chases-itself", Rule: "R07m", Kind: "refactor", Quick: true,
+		File: "validator.go", Old: "		err = validateMap(chased, opts)\n", New: "		err = validateMap(val, opts)\n",
+		More: []edit{{"validator.go", "	keys := val.MapKeys()\n", "	val = chaseValue(val)\n	keys := val.MapKeys()\n"}}})
+	addControl(control{Prop: "C07", Name: "null-resolves-to-no-value", Rule: "R07n", Kind: "mutant", Quick: true,
+		File: "types.go", Old: "		return &cfgNil{cfgPrimitive{ctx: p.ctx, metadata: p.meta()}}, nil\n", New: "		return nil, nil\n", Expect: "R07n/ucfg.parseValue"})
+	addControl(control{Prop: "C07", Name: "splice-error-branch-inverted", Rule: "R07n", Kind: "refactor",
+		File: "types.go", Old: "	if err != nil {\n		return nil, err\n	}\n\n	return parseValue(p, opts, str, parse.DefaultConfig)\n", New: "	if err == nil {\n		return parseValue(p, opts, str, parse.DefaultConfig)\n	}\n	return nil, err\n"})
+	addControl(control{Prop: "C15", Name: "index-text-one-based", Rule: "R15g", Kind: "mutant", Quick: true,
+		File: "path.go", Old: "	return fmt.Sprintf(\"%d\", i.i)\n", New: "	return fmt.Sprintf(\"%d\", i.i+1)\n", Expect: "R15g/"})
+	addControl(control{Prop: "C15", Name: "index-text-by-itoa", Rule: "R15g", Kind: "refactor", Quick: true,
+		File: "path.go", Old: "	return fmt.Sprintf(\"%d\", i.i)\n", New: "	return strconv.Itoa(i.i)\n",
+		More: []edit{{"path.go", "import (\n	\"fmt\"\n", "import (\n"}}})
+	addControl(control{Prop: "C19", Name: "nil-value-argument-dropped", Rule: "R19d", Kind: "mutant", Quick: true,
+		File: "flag/value.go", Old: "			val, err = parse.Value(args[1])\n			if err != nil {\n				return nil, err, err\n			}\n", New: "			val, err = parse.Value(args[1])\n			if err != nil {\n				return nil, err, err\n			}\n			if val == nil {\n				return nil, nil, nil\n			}\n", Expect: "R19d/"})
+	addControl(control{Prop: "C06", Name: "same-kind-shortcut-before-extras", Rule: "R06b", Kind: "mutant", Quick: true,
+		File: "reify.go", Old: "	case valT.gotype == baseType:\n		v, err := val.reflect(opts.opts)\n		if err != nil {\n			ctx := val.Context()\n			return reflect.Value{}, raisePathErr(err, val.meta(), \"\", ctx.path(\".\"))\n		}\n		return v, nil\n",
+		New:    "	case valT.gotype.Kind() == kind:\n		v, err := val.reflect(opts.opts)\n		if err != nil {\n			ctx := val.Context()\n			return reflect.Value{}, raisePathErr(err, val.meta(), \"\", ctx.path(\".\"))\n		}\n		return v.Convert(baseType), nil\n",
+		Expect: "R06b/ucfg.doReifyPrimitive"})
 }
